@@ -32,6 +32,7 @@ const RAW_FRAGS: &[&str] = &[
     "<table>", "</table>", "<br/>", "<p/>", "<div a=>", "<script a=>", "<title/>", "<textarea x='>", "<a b='c' d=\"e\" f=g h>",
     "<A HREF=X>", "</p >", "</p/>", "</p a=b>", "<p a=b a=c>", "<p =x>", "<p a==b>", "<p a=\"x>y\">", "<p\n>", "<p/ >", "<p //>",
     "<script><!--", "</di=x", "</x=", "</scripty", "<!--]</d", "</title=", "<style></sty=", "<title></ti<", "</t\0>",
+    "<meta charset=windows-1251>", "<meta charset=\"shift_jis\">", "<meta http-equiv=content-type content=\"text/html; charset=koi8-r\">", "<meta charset=utf-16>", "<meta name=x content=y>",
     "<esi:include src=a>", "<esi:comment text=b>", "<esi:remove>", "</esi:remove>", "</esi:include>",
     "<body>", "</body>", "</html>", "<head>", "</head>", "<html>", "-- >", "--!", "<!--!>", "<!--x--!>", "<!--x--y-->", "<!x>",
 ];
